@@ -224,7 +224,9 @@ def canonicalise(dotted: str, tree: ast.Module, reference: Optional[dict] = None
         if refmod.get("<lambdas>", {}).get(q):
             nw += def_to_lambda(fn, set(refmod.get("<nested>", {}).get(q, [])))
         ni = ifexp_to_if(fn, set(keep_ifexp.get(q, []))) + if_to_ifexp(fn, set(keep_ifexp.get(q, [])))
-        ni += whole_array_rhs(fn) + nonzero_to_where(fn)
+        ni += whole_array_rhs(fn) + nonzero_to_where(fn) + unit_shape_tuple(fn)
+        ni += split_const_tuple_assign(fn) + format_to_fstring(fn) + element_augassign(fn)
+
         ni += unguard_continue(fn)
         if nw or ni:
             applied.setdefault(q, {})[f"<{nw} while->for, {ni} ifexp->if>"] = ""
@@ -232,6 +234,14 @@ def canonicalise(dotted: str, tree: ast.Module, reference: Optional[dict] = None
         if m:
             _Rename(m).visit(fn)
             applied.setdefault(q, {}).update(m)
+        # (after the renaming: "new" means not a reference local under any name)
+        nsp = unpack_indexed_tuple(fn, tree, {r[0] for r in ref}) + split_conditional_temp(fn, {r[0] for r in ref})
+        if nsp:
+            applied.setdefault(q, {})[f"<{nsp} tuple-index / conditional temporaries resolved>"] = ""
+            m3 = rename_map(fn, ref) if ref else {}
+            if m3:
+                _Rename(m3).visit(fn)
+                applied[q].update(m3)
         nrc = range_to_counter(fn, refmod.get("<counterloops>", {}).get(q, []))
         if nrc:
             applied.setdefault(q, {})[f"<{nrc} range loops -> element loops with a counter>"] = ""
@@ -268,7 +278,7 @@ PURE_CALLS = {"len", "abs", "min", "max", "float", "int", "log", "log10", "sqrt"
               "np.log", "np.log10", "np.sqrt", "np.exp", "np.abs", "np.sum", "np.float64", "np.float32", "np.arange", "np.dtype", "np.isnan", "np.isinf",
               "np.isfinite", "np.cos", "np.sin", "np.zeros", "np.ones", "numpy.log", "str", "tuple", "dict", "isinstance", "np.diff", "np.any", "np.all",
               "gammainc", "ndtri", "digamma", "erf", "hypot", "np.hypot", "cos", "sin", "isnan", "isinf", "np.where", "np.unique", "np.median", "np.nanmedian",
-              "np.searchsorted", "np.sort", "np.log1p", "sc.gammainc", "sc.ndtri", "sc.digamma", "math.erf", "math.sqrt", "math.log", "range", "enumerate", "zip"}
+              "np.searchsorted", "np.sort", "np.log1p", "timedelta", "datetime", "date", "np.datetime64", "np.timedelta64", "sc.gammainc", "sc.ndtri", "sc.digamma", "math.erf", "math.sqrt", "math.log", "range", "enumerate", "zip"}
 PURE_METHODS = {"sum", "any", "all", "copy", "astype", "get", "mean", "min", "max", "get_index", "to_index", "notnull", "isnull", "items", "keys", "values"}
 
 
@@ -417,9 +427,23 @@ def inline_new_temporaries(fn: ast.FunctionDef, ref_names: Set[str], limit: int 
                 continue
             break
     if done:
+        _flatten_fstrings(fn)
         _expand_star_dicts(fn)
         ast.fix_missing_locations(fn)
     return done
+
+
+def _flatten_fstrings(fn: ast.AST):
+    """f"{f'{a:04d}'}{b}" -> f"{a:04d}{b}" (a formatted part that is itself an f-string without conversion / format spec)."""
+    for js in ast.walk(fn):
+        if isinstance(js, ast.JoinedStr):
+            out = []
+            for v in js.values:
+                if isinstance(v, ast.FormattedValue) and isinstance(v.value, ast.JoinedStr) and v.conversion == -1 and v.format_spec is None:
+                    out += list(v.value.values)
+                else:
+                    out.append(v)
+            js.values = out
 
 
 def _expand_star_dicts(fn: ast.AST):
@@ -1096,7 +1120,13 @@ def counter_loops(fn: ast.FunctionDef) -> List[List[str]]:
     out: List[List[str]] = []
     for owner, block in _blocks(fn):
         for i, st in enumerate(block):
-            if not (isinstance(st, ast.For) and isinstance(st.target, ast.Name) and isinstance(st.iter, ast.Name) and st.body and not st.orelse):
+            if not (isinstance(st, ast.For) and isinstance(st.target, ast.Name) and st.body and not st.orelse):
+                continue
+            k0 = 0
+            if isinstance(st.iter, ast.Subscript) and isinstance(st.iter.value, ast.Name) and isinstance(st.iter.slice, ast.Slice) and st.iter.slice.upper is None \
+                    and st.iter.slice.step is None and isinstance(st.iter.slice.lower, ast.Constant) and isinstance(st.iter.slice.lower.value, int):
+                k0 = st.iter.slice.lower.value
+            elif not isinstance(st.iter, ast.Name):
                 continue
             last = st.body[-1]
             if not (isinstance(last, ast.AugAssign) and isinstance(last.op, ast.Add) and isinstance(last.target, ast.Name)
@@ -1104,8 +1134,8 @@ def counter_loops(fn: ast.FunctionDef) -> List[List[str]]:
                 continue
             c = last.target.id
             init = [b for b in block[:i] if isinstance(b, ast.Assign) and len(b.targets) == 1 and isinstance(b.targets[0], ast.Name) and b.targets[0].id == c]
-            if init and isinstance(init[-1].value, ast.Constant) and init[-1].value.value == 0:
-                out.append([c, st.iter.id, st.target.id])
+            if init and isinstance(init[-1].value, ast.Constant) and init[-1].value.value == k0:
+                out.append([c, ast.unparse(st.iter), st.target.id])
     return out
 
 
@@ -1116,16 +1146,32 @@ def range_to_counter(fn: ast.FunctionDef, ref_loops: List[List[str]]) -> int:
     for owner, block in _blocks(fn):
         for i, st in enumerate(block):
             if not (isinstance(st, ast.For) and isinstance(st.target, ast.Name) and not st.orelse and isinstance(st.iter, ast.Call)
-                    and ast.unparse(st.iter.func) == "range" and len(st.iter.args) == 1 and not st.iter.keywords):
+                    and ast.unparse(st.iter.func) == "range" and len(st.iter.args) in (1, 2) and not st.iter.keywords):
                 continue
             c = st.target.id
-            bound = ast.unparse(st.iter.args[0])
-            for rc, ra, re_ in ref_loops:
-                if rc != c or bound not in (f"{ra}.shape[0]", f"len({ra})"):
+            bound = ast.unparse(st.iter.args[-1])
+            start = 0
+            if len(st.iter.args) == 2:
+                if not (isinstance(st.iter.args[0], ast.Constant) and isinstance(st.iter.args[0].value, int)):
+                    continue
+                start = st.iter.args[0].value
+            for rc, ra_txt, re_ in ref_loops:
+                import re as _re
+                m_ = _re.fullmatch(r"(\w+)\[(\d+):\]", ra_txt)
+                ra, k0 = (m_.group(1), int(m_.group(2))) if m_ else (ra_txt, 0)
+                if not ra.isidentifier() or rc != c or k0 != start or bound not in (f"{ra}.shape[0]", f"len({ra})"):
                     continue
                 names = {x.id for x in ast.walk(fn) if isinstance(x, ast.Name)} | _params(fn)
-                if re_ in names:
+                fetch0 = st.body[0] if st.body else None
+                has_fetch = (isinstance(fetch0, ast.Assign) and len(fetch0.targets) == 1 and isinstance(fetch0.targets[0], ast.Name) and fetch0.targets[0].id == re_
+                             and ast.unparse(fetch0.value) == f"{ra}[{c}]"
+                             and sum(1 for x in ast.walk(fn) if isinstance(x, ast.Name) and x.id == re_ and isinstance(x.ctx, ast.Store)) == 1
+                             and not any(isinstance(x, ast.Name) and x.id == re_ for o_ in ast.walk(fn) if o_ is not st and isinstance(o_, ast.stmt) and not any(o_ is y for y in ast.walk(st))
+                                         and not any(st is y for y in ast.walk(o_)) for x in ast.walk(o_)))
+                if re_ in names and not has_fetch:
                     continue
+                if has_fetch:
+                    st.body.pop(0)          # `e = A[c]` at the top of the body is what the element loop does by itself
                 body_stores = {x.id for b in st.body for x in ast.walk(b) if isinstance(x, ast.Name) and isinstance(x.ctx, (ast.Store, ast.Del))}
                 if c in body_stores or ra in body_stores:
                     continue
@@ -1138,6 +1184,8 @@ def range_to_counter(fn: ast.FunctionDef, ref_loops: List[List[str]]) -> int:
                     if occ:
                         dead = (isinstance(later, ast.Assign) and len(later.targets) == 1 and isinstance(later.targets[0], ast.Name) and later.targets[0].id == c
                                 and not any(isinstance(x, ast.Name) and x.id == c for x in ast.walk(later.value)))
+                        dead = dead or (isinstance(later, ast.For) and isinstance(later.target, ast.Name) and later.target.id == c
+                                        and not any(isinstance(x, ast.Name) and x.id == c for x in ast.walk(later.iter)))
                         break
                 if dead is None:
                     dead = owner is fn
@@ -1160,12 +1208,12 @@ def range_to_counter(fn: ast.FunctionDef, ref_loops: List[List[str]]) -> int:
                         break
                     st.body[k] = _E().visit(b)
                 st.target = ast.Name(id=re_, ctx=ast.Store())
-                st.iter = ast.Name(id=ra, ctx=ast.Load())
+                st.iter = ast.parse(ra_txt, mode="eval").body
                 st.body.append(ast.copy_location(ast.AugAssign(target=ast.Name(id=c, ctx=ast.Store()), op=ast.Add(), value=ast.Constant(value=1)), st.body[-1]))
-                block.insert(i, ast.copy_location(ast.Assign(targets=[ast.Name(id=c, ctx=ast.Store())], value=ast.Constant(value=0)), st))
+                block.insert(i, ast.copy_location(ast.Assign(targets=[ast.Name(id=c, ctx=ast.Store())], value=ast.Constant(value=start)), st))
                 ast.fix_missing_locations(fn)
                 n += 1
-                return n + range_to_counter(fn, [l for l in ref_loops if l != [rc, ra, re_]])
+                return n + range_to_counter(fn, [l for l in ref_loops if l != [rc, ra_txt, re_]])
     return n
 
 
@@ -1234,6 +1282,169 @@ def if_to_ifexp(fn: ast.FunctionDef, targets: Set[str]) -> int:
             n += 1
     if n:
         ast.fix_missing_locations(fn)
+    return n
+
+
+def split_const_tuple_assign(fn: ast.FunctionDef) -> int:
+    """`a, b = 0, 1` -> `a = 0; b = 1` (all targets plain names, all values numeric constants: no element can read a target)."""
+    n = 0
+    for owner, block in _blocks(fn):
+        i = 0
+        while i < len(block):
+            st = block[i]
+            if isinstance(st, ast.Assign) and len(st.targets) == 1 and isinstance(st.targets[0], ast.Tuple) and isinstance(st.value, ast.Tuple) \
+                    and len(st.targets[0].elts) == len(st.value.elts) and all(isinstance(t, ast.Name) for t in st.targets[0].elts) \
+                    and all(isinstance(v, ast.Constant) and isinstance(v.value, (int, float)) and not isinstance(v.value, bool) or
+                            (isinstance(v, ast.UnaryOp) and isinstance(v.op, ast.USub) and isinstance(v.operand, ast.Constant)) for v in st.value.elts):
+                new = [ast.copy_location(ast.Assign(targets=[ast.Name(id=t.id, ctx=ast.Store())], value=v), st) for t, v in zip(st.targets[0].elts, st.value.elts)]
+                block[i:i + 1] = new
+                i += len(new)
+                n += 1
+                continue
+            i += 1
+    if n:
+        ast.fix_missing_locations(fn)
+    return n
+
+
+def format_to_fstring(fn: ast.AST) -> int:
+    """`"{:04d}{}".format(a, b)` -> f"{a:04d}{b}" (literal template, positional arguments, automatic or explicit numbering)."""
+    import string
+    n = 0
+
+    class T(ast.NodeTransformer):
+        def visit_Call(self, node):
+            self.generic_visit(node)
+            f = node.func
+            if not (isinstance(f, ast.Attribute) and f.attr == "format" and isinstance(f.value, ast.Constant) and isinstance(f.value.value, str)
+                    and not node.keywords and not any(isinstance(a, ast.Starred) for a in node.args)):
+                return node
+            parts = []
+            auto = 0
+            try:
+                for lit, field, spec, conv in string.Formatter().parse(f.value.value):
+                    if lit:
+                        parts.append(ast.Constant(value=lit))
+                    if field is None:
+                        continue
+                    if field == "":
+                        ix = auto
+                        auto += 1
+                    elif field.isdigit():
+                        ix = int(field)
+                    else:
+                        return node
+                    if ix >= len(node.args) or (spec and ("{" in spec)):
+                        return node
+                    parts.append(ast.FormattedValue(value=node.args[ix], conversion=ord(conv) if conv else -1,
+                                                    format_spec=ast.JoinedStr(values=[ast.Constant(value=spec)]) if spec else None))
+            except ValueError:
+                return node
+            nonlocal n
+            n += 1
+            return ast.copy_location(ast.JoinedStr(values=parts), node)
+    T().visit(fn)
+    if n:
+        ast.fix_missing_locations(fn)
+    return n
+
+
+def element_augassign(fn: ast.FunctionDef) -> int:
+    """`a[i] = a[i] + E` -> `a[i] += E` for a single element (index without slice, pure): the same read-modify-write of one cell."""
+    n = 0
+    ops = {ast.Add: ast.Add, ast.Sub: ast.Sub, ast.Mult: ast.Mult, ast.Div: ast.Div}
+    for owner, block in _blocks(fn):
+        for i, st in enumerate(block):
+            if not (isinstance(st, ast.Assign) and len(st.targets) == 1 and isinstance(st.targets[0], ast.Subscript) and isinstance(st.value, ast.BinOp)
+                    and type(st.value.op) in ops):
+                continue
+            t = st.targets[0]
+            if any(isinstance(x, ast.Slice) for x in ast.walk(t.slice)) or not _is_pure(t.slice) or not isinstance(t.value, ast.Name):
+                continue
+            if ast.unparse(st.value.left) == ast.unparse(t):
+                block[i] = ast.copy_location(ast.AugAssign(target=t, op=type(st.value.op)(), value=st.value.right), st)
+                n += 1
+    if n:
+        ast.fix_missing_locations(fn)
+    return n
+
+
+def unpack_indexed_tuple(fn: ast.FunctionDef, tree: ast.Module, ref_names: Set[str]) -> int:
+    """`r = f(x); a = r[0]; b = r[1]` -> `a, b = f(x)` when f is a function of this module whose every return is a tuple of that length and r is a
+    local the reference does not have, read nowhere else."""
+    n = 0
+    tops = {x.name: x for x in tree.body if isinstance(x, ast.FunctionDef)}
+    for owner, block in _blocks(fn):
+        for i, st in enumerate(block):
+            if not (isinstance(st, ast.Assign) and len(st.targets) == 1 and isinstance(st.targets[0], ast.Name) and isinstance(st.value, ast.Call)
+                    and isinstance(st.value.func, ast.Name) and st.value.func.id in tops):
+                continue
+            r = st.targets[0].id
+            if r in ref_names:
+                continue
+            rets = [x for x in ast.walk(tops[st.value.func.id]) if isinstance(x, ast.Return)]
+            if not rets or not all(isinstance(x.value, ast.Tuple) for x in rets) or len({len(x.value.elts) for x in rets}) != 1:
+                continue
+            k = len(rets[0].value.elts)
+            follow = block[i + 1:i + 1 + k]
+            if len(follow) != k:
+                continue
+            ok = all(isinstance(s_, ast.Assign) and len(s_.targets) == 1 and isinstance(s_.value, ast.Subscript) and isinstance(s_.value.value, ast.Name)
+                     and s_.value.value.id == r and isinstance(s_.value.slice, ast.Constant) and s_.value.slice.value == j and _is_pure(s_.targets[0])
+                     for j, s_ in enumerate(follow))
+            reads = sum(1 for x in ast.walk(fn) if isinstance(x, ast.Name) and x.id == r and isinstance(x.ctx, ast.Load))
+            stores = sum(1 for x in ast.walk(fn) if isinstance(x, ast.Name) and x.id == r and isinstance(x.ctx, ast.Store))
+            if not ok or reads != k or stores != 1:
+                continue
+            tgt = ast.Tuple(elts=[s_.targets[0] for s_ in follow], ctx=ast.Store())
+            block[i:i + 1 + k] = [ast.copy_location(ast.Assign(targets=[tgt], value=st.value), st)]
+            ast.fix_missing_locations(fn)
+            return 1 + unpack_indexed_tuple(fn, tree, ref_names)
+    return n
+
+
+def split_conditional_temp(fn: ast.FunctionDef, ref_names: Set[str]) -> int:
+    """`if c: t = A else: t = B` followed by statements reading t (t new, A and B constants or names): the readers are duplicated into the
+    arms with t replaced (`t = 1 if robust else 0; lopt = g[t, 1]` -> `if robust: lopt = g[1, 1] else: lopt = g[0, 1]`)."""
+    import copy
+    for owner, block in _blocks(fn):
+        for i, st in enumerate(block):
+            if not (isinstance(st, ast.If) and len(st.body) == 1 and len(st.orelse) == 1):
+                continue
+            a, b = st.body[0], st.orelse[0]
+            if not all(isinstance(x, ast.Assign) and len(x.targets) == 1 and isinstance(x.targets[0], ast.Name) and isinstance(x.value, (ast.Constant, ast.Name)) for x in (a, b)):
+                continue
+            t = a.targets[0].id
+            if t != b.targets[0].id or t in ref_names or t in _params(fn):
+                continue
+            if sum(1 for x in ast.walk(fn) if isinstance(x, ast.Name) and x.id == t and isinstance(x.ctx, ast.Store)) != 2:
+                continue
+            rest = block[i + 1:]
+            last = max((k for k, r in enumerate(rest) if any(isinstance(x, ast.Name) and x.id == t for x in ast.walk(r))), default=-1)
+            all_reads = sum(1 for x in ast.walk(fn) if isinstance(x, ast.Name) and x.id == t and isinstance(x.ctx, ast.Load))
+            readers = rest[:last + 1]
+            here = sum(1 for r in readers for x in ast.walk(r) if isinstance(x, ast.Name) and x.id == t and isinstance(x.ctx, ast.Load))
+            if last < 0 or here != all_reads or len(readers) > 3:
+                continue
+            srcs = {x.value.id for x in (a, b) if isinstance(x.value, ast.Name)}
+            if srcs & _stores_in(readers) or any(isinstance(x, (ast.Return, ast.Break, ast.Continue)) for r in readers[:-1] for x in ast.walk(r)):
+                continue
+            st.body = [_Subst({t: a.value}).visit(copy.deepcopy(r)) for r in readers]
+            st.orelse = [_Subst({t: b.value}).visit(copy.deepcopy(r)) for r in readers]
+            del block[i + 1:i + 2 + last]
+            ast.fix_missing_locations(fn)
+            return 1 + split_conditional_temp(fn, ref_names)
+    return 0
+
+
+def unit_shape_tuple(fn: ast.FunctionDef) -> int:
+    """np.zeros((n,)) -> np.zeros(n): a one-element shape tuple and the bare length allocate the same 1-d array."""
+    n = 0
+    for c in ast.walk(fn):
+        if isinstance(c, ast.Call) and ast.unparse(c.func).split(".")[-1] in ("zeros", "ones", "empty", "full") and c.args \
+                and isinstance(c.args[0], ast.Tuple) and len(c.args[0].elts) == 1 and not isinstance(c.args[0].elts[0], ast.Starred):
+            c.args[0] = c.args[0].elts[0]
+            n += 1
     return n
 
 
@@ -1431,8 +1642,16 @@ def _const_expr(e: ast.AST, imports: Set[str]) -> bool:
             continue
         if isinstance(n, ast.Name) and n.id in imports:
             continue
+        if isinstance(n, ast.Call) and ast.unparse(n.func).split(".")[-1] in IMMUTABLE_CTORS and not any(isinstance(a, ast.Starred) for a in n.args):
+            continue        # an immutable value built once from constants (timedelta(microseconds=1), np.float64(0.9), log(10))
+        if isinstance(n, ast.keyword):
+            continue
         return False
     return True
+
+
+IMMUTABLE_CTORS = {"timedelta", "float", "int", "float64", "float32", "int16", "int32", "int64", "uint8", "sqrt", "log", "log10", "exp", "dtype", "frozenset", "date", "datetime",
+                   "datetime64", "timedelta64", "Fraction"}
 
 
 def inline_module_constants(tree: ast.Module, ref_globals: Set[str], imports: Set[str]) -> List[str]:
@@ -1565,7 +1784,12 @@ def positional_calls(tree: ast.Module, sigs: Dict[str, List[str]], keep: Optiona
         if not params or len(c.args) > len(params):
             continue
         kw = {k.arg: k.value for k in c.keywords}
-        if not set(kw) <= set(params[len(c.args):]):
+        partial = bool(params) and params[-1] == "*"        # leading parameters of a library call; further keywords are left alone
+        if partial:
+            params = params[:-1]
+            if len(c.args) > len(params):
+                continue
+        elif not set(kw) <= set(params[len(c.args):]):
             continue
         new_args = list(c.args)
         for pn in params[len(c.args):]:
